@@ -232,9 +232,17 @@ func CorpusHistories(scratch string, names map[string]bool) ([]*History, []strin
 					t.Gas, t.Note = 100000, "script-transfer-to-destroyed"
 					return []*TxSpec{t}
 				}
+			case 7: // gas limit between the intrinsic gas and the governance minimum: refused like any other type
+				if len(s.contracts) >= 3 {
+					t := s.baseTx(6, s.User(2), s.contracts[2])
+					t.Data, t.Gas, t.Note = word([]byte{7}), 30000, "script-call-below-minimum-fee"
+					u := s.baseTx(6, s.User(2), s.contracts[2])
+					u.Data, u.Gas, u.Note = word([]byte{8}), 100000, "script-call-at-minimum-fee"
+					return []*TxSpec{t, u}
+				}
 			}
 			return nil
-		}, nil},
+		}, func(g *Genesis) { easyParams(g); g.Params.MinTrxGas = 100000 }},
 		// downtime: with window 10 and minimum 8 the third miss inside the window (blocks 4, 6, 8) is the
 		// one that takes the validator below the minimum: it must lose all stake in that very block
 		{"downtime-at-exact-threshold", 3, 2, 14, func(s *Sim, h int64) []*TxSpec {
